@@ -72,6 +72,13 @@ func CondPred(res *term.Resolver, v ssa.Value) (Pred, bool, bool) {
 	if _, isPhi := v.(*ssa.Phi); isPhi {
 		return Pred{}, pol, false
 	}
+	if c, ok := v.(*ssa.Call); ok {
+		if h := c.Call.StaticCallee(); h != nil && !c.Call.IsInvoke() && res.P.Transparent(h) {
+			if li, ei, ok := ContainsHelper(h); ok && li < len(c.Call.Args) && ei < len(c.Call.Args) {
+				return Pred{"in", res.Of(c.Call.Args[ei]).String(), res.Of(c.Call.Args[li]).String()}, pol, true
+			}
+		}
+	}
 	if c, ok := v.(*ssa.Const); ok && c.Value != nil && c.Value.Kind() == constant.Bool {
 		return Pred{"bool", c.Value.String(), ""}, pol, true
 	}
@@ -140,6 +147,15 @@ func Ne(a, b string) Atom {
 	return Atom{Desc: a + " != " + b, Kind: "eq", A: Glob(a), B: Glob(b), Pol: false, rawA: a, rawB: b}
 }
 
+// In / NotIn: membership decided by a "contains" helper (a function that ranges over a slice parameter and
+// returns true exactly when an element equals its other parameter): elem ∈ list holds / does not hold.
+func In(elem, list string) Atom {
+	return Atom{Desc: elem + " in " + list, Kind: "in", A: Glob(elem), B: Glob(list), Pol: true}
+}
+func NotIn(elem, list string) Atom {
+	return Atom{Desc: elem + " not in " + list, Kind: "in", A: Glob(elem), B: Glob(list), Pol: false}
+}
+
 // Lt: a < b holds; Ge: !(a < b).
 func Lt(a, b string) Atom { return Atom{Desc: a + " < " + b, Kind: "lt", A: Glob(a), B: Glob(b), Pol: true} }
 func Ge(a, b string) Atom { return Atom{Desc: a + " >= " + b, Kind: "lt", A: Glob(a), B: Glob(b), Pol: false} }
@@ -179,7 +195,7 @@ func (a Atom) matches1(p Pred, truth bool) bool {
 	switch a.Kind {
 	case "eq":
 		return (a.A.MatchString(p.A) && a.B.MatchString(p.B)) || (a.A.MatchString(p.B) && a.B.MatchString(p.A))
-	case "lt":
+	case "lt", "in":
 		return a.A.MatchString(p.A) && a.B.MatchString(p.B)
 	default:
 		return a.A.MatchString(p.A)
@@ -1086,4 +1102,106 @@ func DefinitelyNonNil(v ssa.Value, d int) bool {
 		return DefinitelyNonNil(x.X, d+1)
 	}
 	return false
+}
+
+var containsCache = map[*ssa.Function][3]int{}
+
+// ContainsHelper recognises   func f(list []T, x T) bool { for _, e := range list { if e == x { return true } }; return false }
+// (parameters in any order, optional receiver): one loop over a slice parameter, a single equality test of the
+// element with another parameter whose true edge returns true, every other return false, no calls with effects.
+func ContainsHelper(f *ssa.Function) (listIdx, elemIdx int, ok bool) {
+	if c, seen := containsCache[f]; seen {
+		return c[0], c[1], c[2] == 1
+	}
+	containsCache[f] = [3]int{0, 0, 0}
+	if len(f.Blocks) == 0 || len(f.Blocks) > 12 || f.Signature.Results().Len() != 1 {
+		return 0, 0, false
+	}
+	if b, isB := f.Signature.Results().At(0).Type().Underlying().(*types.Basic); !isB || b.Kind() != types.Bool {
+		return 0, 0, false
+	}
+	loops := cfgx.Loops(f)
+	if len(loops) != 1 {
+		return 0, 0, false
+	}
+	paramIdx := func(v ssa.Value) int {
+		for i, p := range f.Params {
+			if p == v {
+				return i
+			}
+		}
+		return -1
+	}
+	li, ei := -1, -1
+	nEq := 0
+	for _, b := range f.Blocks {
+		for _, ins := range b.Instrs {
+			switch x := ins.(type) {
+			case *ssa.Call:
+				if bi, isB := x.Call.Value.(*ssa.Builtin); !isB || bi.Name() != "len" {
+					return 0, 0, false
+				}
+				if i := paramIdx(x.Call.Args[0]); i >= 0 {
+					li = i
+				}
+			case *ssa.Store, *ssa.MapUpdate, *ssa.Go, *ssa.Defer, *ssa.Send, *ssa.Panic:
+				return 0, 0, false
+			case *ssa.BinOp:
+				if x.Op == token.EQL {
+					nEq++
+					// one side an element of the list (load of IndexAddr(list, i)), the other a parameter
+					for _, pair := range [][2]ssa.Value{{x.X, x.Y}, {x.Y, x.X}} {
+						if u, ok := pair[0].(*ssa.UnOp); ok {
+							if ia, ok := u.X.(*ssa.IndexAddr); ok && paramIdx(ia.X) >= 0 {
+								if j := paramIdx(pair[1]); j >= 0 {
+									li, ei = paramIdx(ia.X), j
+								}
+							}
+						}
+					}
+				}
+			case *ssa.Return:
+				if len(x.Results) != 1 {
+					return 0, 0, false
+				}
+				if _, isC := x.Results[0].(*ssa.Const); !isC {
+					return 0, 0, false
+				}
+			}
+		}
+	}
+	if nEq != 1 || li < 0 || ei < 0 || li == ei {
+		return 0, 0, false
+	}
+	// the equality's true edge leads to `return true`, all other returns are false
+	for _, b := range f.Blocks {
+		iff := cfgx.IfOf(b)
+		if iff == nil {
+			continue
+		}
+		if bo, ok := iff.Cond.(*ssa.BinOp); ok && bo.Op == token.EQL {
+			t := b.Succs[0]
+			ret, ok := t.Instrs[len(t.Instrs)-1].(*ssa.Return)
+			if !ok || len(ret.Results) != 1 {
+				return 0, 0, false
+			}
+			k, _ := ret.Results[0].(*ssa.Const)
+			if k == nil || k.Value == nil || !constant.BoolVal(k.Value) {
+				return 0, 0, false
+			}
+		}
+	}
+	nTrue := 0
+	for _, b := range f.Blocks {
+		if ret, ok := b.Instrs[len(b.Instrs)-1].(*ssa.Return); ok {
+			if k, _ := ret.Results[0].(*ssa.Const); k != nil && k.Value != nil && constant.BoolVal(k.Value) {
+				nTrue++
+			}
+		}
+	}
+	if nTrue != 1 {
+		return 0, 0, false
+	}
+	containsCache[f] = [3]int{li, ei, 1}
+	return li, ei, true
 }
